@@ -261,6 +261,13 @@ void run_c04 (void)
 					if (vl_case ("C04 fmt=%s ch=%d rate=%d openframes=0 type=short N=%d split=0", f->name, ch, rates [ri], n))
 					{	vl_root_count (f->name) ; c04_case (f, ch, rates [ri], 0, T_SHORT, n, 0) ; }
 					}
+			/* lengths that cross every staging buffer (the codecs' own 2048-item ones once, the 8 KiB conversion buffer once to
+			** four times depending on the type), one call, each of the four types - the rotation above gives a length only 3 types */
+			{	long big [2] = { 2048 / ch + 1, 2 * (2048 / ch) + 3 } ;
+				for (int bi = 0 ; bi < 2 ; bi++) for (int type = 0 ; type < T_NTYPES ; type++)
+					if (vl_case ("C04 fmt=%s ch=%d rate=%d openframes=0 type=%s N=%ld split=0 big", f->name, ch, rate, type_names [type], big [bi]))
+					{	vl_root_count (f->name) ; c04_case (f, ch, rate, 0, type, big [bi], 0) ; }
+				}
 			for (int oi = 0 ; open_frames [oi] ; oi++)
 			{	long ns [3] = { 0, 3, B > 1 ? B + 1 : 257 } ;
 				for (int k = 0 ; k < 3 ; k++)
